@@ -1,5 +1,5 @@
 #!/bin/bash
-# usage: snap_regress.sh [-j N] [prop...] : run the quick checks against a snapshot copy of /repo's
+# usage: [TIER=thorough CBV_NO_SELFTEST=1] snap_regress.sh [-j N] [prop...] : run the quick checks against a snapshot copy of /repo's
 # working tree (taken now), several at a time, evidence into scratch. For development only: the
 # registered checks and the committed evidence always come from ./check against /repo itself.
 J=3; [ "$1" = "-j" ] && { J=$2; shift 2; }
@@ -7,7 +7,7 @@ props="$@"; [ -z "$props" ] && props=$(python3 -c "import json;print(' '.join(so
 R=/tmp/snapr/$$; rm -rf $R; mkdir -p $R/repo
 (cd /repo && git ls-files -z | xargs -0 cp --parents -t $R/repo)
 run_one() { p=$1; V=$R/v_$p; mkdir -p $V/evidence; ln -s /verif/spec $V/spec; cp /verif/KNOWN_FINDINGS.txt $V/
-  t0=$(date +%s); out=$(cd /verif && ./bin/cbv check -repo $R/repo -verif $V -prop $p -tier quick 2>&1); rc=$?
+  t0=$(date +%s); out=$(cd /verif && ./bin/cbv check -repo $R/repo -verif $V -prop $p -tier ${TIER:-quick} 2>&1); rc=$?
   echo "$p exit=$rc $(( $(date +%s)-t0 ))s $(echo "$out" | grep -c '^VIOLATION') violations $(echo "$out" | grep -c '^KNOWN-FINDING') known"
   echo "$out" | grep '^VIOLATION' | sed 's/.*obligation=/    /' | cut -c1-200 | head -8
   [ $rc -ge 2 ] && echo "$out" | tail -3
